@@ -718,6 +718,13 @@ def u15(ctx, rid):
                 tests += 1
                 ogs = core.origins_ip(prog, g, c.args[0], depth=1)
                 src = [o.data.name for o in ogs if o.kind == 'call']
+                if not src and g.kind == 'Closure' and g.parent in prog.fns:
+                    # `entries.last().map_or(false, |e| e.is_deleted())`: the element the closure is applied to is the receiver
+                    # of the adaptor the closure is handed to
+                    par = prog.fns[g.parent]
+                    for c2 in par.calls:
+                        if any(op_local(a) is not None and par.locals[op_local(a)].get('h') == 'closure' and par.locals[op_local(a)]['a'][0] == g.id for a in c2.args[1:]):
+                            src += [o.data.name for o in core.origins(par, c2.args[0]) if o.kind == 'call']
                 if not src or not all(n_ in ('last', 'last_mut', 'pop', 'next_back', 'split_last') for n_ in src):
                     bad = (c, 'the deletion test of read_all looks at `%s`, not at the last element of the marker-terminated list' % (src[0] if src else 'another element'))
             if c.path.startswith('std::vec::Vec') and 'Entry' in c.full and c.name in ('clear', 'retain', 'remove', 'drain', 'split_off', 'swap_remove', 'truncate', 'dedup_by', 'retain_mut'):
